@@ -9,6 +9,14 @@ ALL = ["C%02d" % i for i in range(1, 21)]
 
 # id -> dict(level, technique, text, note, design_ref, engine)
 CHECKS = {
+    "C16": dict(
+        level="exploration",
+        engine="E1-enum",
+        technique="bounded-exhaustive enumeration of monomorphic serde types x per-leaf edge alphabets (round trip), of edge values x embedding routes (identity), and of short strings over a JSON/HTML-critical alphabet (tojson parse-back)",
+        text="Typed round trip T::deserialize(Value::from(Serde(&x))) == x for 14 leaf types x 20 container shapes (Option, Vec, tuples, arrays, maps keyed by String/i64/u64/bool, newtype/tuple/field structs, every enum variant shape) plus 14 depth-2 shapes for representative leaves, over per-leaf boundary values (MIN/MAX, 2^53, 2^63, subnormals, infinities, NUL and non-BMP characters, the value-handle marker string). Every value of the edge alphabet (safe strings, undefined, 128-bit integers, NaN, bytes, lists, tuples, lazy iterables, maps, plain objects, invalid values) embedded through 8 routes must come back with the same kind, flags and object identity, and a failing serialisation must leave no residue. All strings up to length 3 (thorough 4) over 16 critical characters and all edge values (bare, nested, as map keys) go through tojson in .txt/.html templates, tojson(indent) and JSON auto-escaping; the output is parsed with serde_json and compared with the expected JSON value, and must not contain < > & '.",
+        note="serde_json is the independent JSON parser. Errors are accepted only for maps whose keys JSON cannot carry (none, sequences, non-finite floats) and invalid values. Safe strings are passed through by JSON auto-escaping by design and carry no expectation there. The value-handle registry itself is not inspectable (no hook yet).",
+        design_ref="2/C16",
+    ),
     "C14": dict(
         level="exploration",
         engine="E1-enum",
